@@ -190,7 +190,7 @@ def history(args):
             N.Ctx.log = saved
         else:
             # ---- a query on the live objects (half of the time: an earlier query again, which exposes stale caches)
-            q = rnd.choice(("nav", "nav", "common", "iters", "iters", "iters", "walk", "find", "findall", "sweep"))
+            q = rnd.choice(("nav", "nav", "common", "iters", "iters", "iters", "walk", "find", "findall", "sweep") + (("byattr", "byattr") if names is not None else ()))
             if q == "sweep":
                 for lbl in labels:
                     query = {"q": "nav", "n": lbl}
@@ -201,6 +201,10 @@ def history(args):
             if recent and rnd.random() < 0.5:
                 query = dict(rnd.choice(recent))
                 q = query["q"]
+            elif q == "byattr":
+                # the attribute is the (renamable) name; identical arguments recur, which is what a memoising search must survive
+                query.update(s=rnd.choice(labels[:3]), value=rnd.choice(NAMEPOOL[:3]), ml=rnd.choice((query_replay.NOMAX, query_replay.NOMAX, 2)),
+                             minc=-1, maxc=-1, attrname="name")
             elif q == "nav":
                 query["n"] = rnd.choice(labels)
             elif q == "common":
@@ -213,6 +217,8 @@ def history(args):
                              fl=sorted(set(labels) - set(hide)), ml=rnd.choice((query_replay.NOMAX, query_replay.NOMAX, 0, 1, 2, 3, 4)))
                 if q == "findall":
                     query.update(minc=rnd.choice((-1, -1, 0, 1, 2, 3)), maxc=rnd.choice((-1, -1, 0, 1, 2, 5)))
+            if q == "byattr":
+                query["attr"] = dict(names)          # the attribute values as they are right now
             recent.append(dict(query))
             del recent[:-6]
             saved = N.Ctx.log
